@@ -158,6 +158,10 @@ def _AC2BO(AC: np.ndarray[tuple[N, N], np.dtype[np.int8]],
                 f"max {max(atomic_valence[atomicNum])}. Continuing"
             )
             # sys.exit()
+            # keep the atom as it is (all single bonds): an empty list would
+            # make the product below empty and leave the WHOLE molecule
+            # without multiple bonds (e.g. any alkene next to a PF6- ion)
+            possible_valence = [valence]
         valences_list_of_lists.append(possible_valence)
 
     # convert [[4],[2,1]] to [[4,2],[4,1]]
@@ -362,17 +366,27 @@ def _get_UA_pairs(UA: Sequence[int], AC: np.ndarray[tuple[N, N], np.dtype[np.int
     if len(bonds) == 0:
         return [()]
 
-    max_atoms_in_combo = 0
-    UA_pairs = [()]
-    for combo in list(itertools.combinations(bonds, int(len(UA) / 2))):
-        flat_list = [item for sublist in combo for item in sublist]
-        atoms_in_combo = len(set(flat_list))
-        if atoms_in_combo > max_atoms_in_combo:
-            max_atoms_in_combo = atoms_in_combo
-            UA_pairs = [combo]
+    # Not every unsaturated atom has an unsaturated partner (a phosphine on a
+    # metal, two PH4+ next to an alkene). Then len(UA) / 2 pairs do not exist
+    # or share atoms, and the candidates with fewer pairs are offered as
+    # well, down to the first size at which the pairs are disjoint.
+    UA_pairs: list[tuple[tuple[int, int], ...]] = []
+    for n_pairs in range(min(int(len(UA) / 2), len(bonds)), 0, -1):
+        max_atoms_in_combo = 0
+        best_combos: list[tuple[tuple[int, int], ...]] = []
+        for combo in list(itertools.combinations(bonds, n_pairs)):
+            flat_list = [item for sublist in combo for item in sublist]
+            atoms_in_combo = len(set(flat_list))
+            if atoms_in_combo > max_atoms_in_combo:
+                max_atoms_in_combo = atoms_in_combo
+                best_combos = [combo]
 
-        elif atoms_in_combo == max_atoms_in_combo:
-            UA_pairs.append(combo) # type: ignore[assignment]
+            elif atoms_in_combo == max_atoms_in_combo:
+                best_combos.append(combo)
+
+        UA_pairs.extend(best_combos)
+        if max_atoms_in_combo == 2 * n_pairs:
+            break
 
     return UA_pairs
 
